@@ -63,6 +63,12 @@ pub enum Op {
     Advance(u8),
     /// the owner upgrades the token and completes the migration: balances, allowances, minters and supply are carried over
     UpgradeAndMigrate,
+    /// the administrator uses the standard admin interface's `set_authorized` (a stub at the pinned commit; a tree may
+    /// implement it): never moves value; holders it de-authorises are afterwards undecided for debits and credits
+    SetAuthorized { id: u8, authorize: bool },
+    /// the administrator uses the standard admin interface's `clawback` (a stub at the pinned commit; a tree may
+    /// implement it): if accepted it is a burn of exactly that non-negative amount from that holder
+    Clawback { from: u8, amt: Amt },
 }
 
 #[derive(Clone, Debug, Serialize, Deserialize)]
@@ -120,6 +126,8 @@ fn op() -> impl Strategy<Value = Op> {
         1 => (idx(), any::<bool>()).prop_map(|(to, via_set_admin)| Op::TransferOwnership { to, via_set_admin }),
         4 => (0u8..60).prop_map(Op::Advance),
         1 => Just(Op::UpgradeAndMigrate),
+        1 => (idx(), prop_oneof![3 => Just(false), 1 => Just(true)]).prop_map(|(id, authorize)| Op::SetAuthorized { id, authorize }),
+        1 => (idx(), amt()).prop_map(|(from, amt)| Op::Clawback { from, amt }),
     ]
 }
 
@@ -188,7 +196,7 @@ impl Property for C12 {
         "C12"
     }
     fn rule(&self) -> &'static str {
-        "proptest histories (<=40 quick / <=70 thorough ops) of mint, mint_from, transfer, approve, transfer_from, burn, burn_from, minter/owner changes and ledger advancement on a natively registered InterchainToken over 4 accounts, amounts drawn relative to the model state (0, +-1, balance, balance+-1, allowance, allowance+-1, i128::MAX, negative); oracle = reference ledger, sweep of all balances/allowances and sum-of-balances after every step, standard token events compared. non-trivial = history in which an allowance is used at exactly its expiration ledger or one after, or an amount equal to balance/allowance +-1 is used; distinct by Debug hash of the case"
+        "proptest histories (<=40 quick / <=70 thorough ops) of mint, mint_from, transfer, approve, transfer_from, burn, burn_from, minter/owner changes and ledger advancement and the standard admin interface's set_authorized / clawback (stubs at the pinned commit: acceptance undecided; an accepted set_authorized moves nothing, an accepted clawback burns exactly the stated non-negative amount and never more than the balance; holders a tree de-authorises are undecided for debits and credits afterwards) on a natively registered InterchainToken over 4 accounts, amounts drawn relative to the model state (0, +-1, balance, balance+-1, allowance, allowance+-1, i128::MAX, negative); oracle = reference ledger, sweep of all balances/allowances and sum-of-balances after every step, standard token events compared. non-trivial = history in which an allowance is used at exactly its expiration ledger or one after, or an amount equal to balance/allowance +-1 is used; distinct by Debug hash of the case"
     }
     fn cases(&self, tier: Tier) -> u64 {
         tier.pick(4000, 60000)
@@ -263,6 +271,7 @@ impl Property for C12 {
             m.minters[i as usize] = true;
         }
         let mut advanced: u32 = 0;
+        let mut deauthorised = [false; N];
         let mut boundary = false;
         let mut edge_amount = false;
 
@@ -272,8 +281,9 @@ impl Property for C12 {
             // (expectation, standard events expected on success, closure applying effects)
             let mut expected_events: Vec<(Vec<ScVal>, ScVal)> = vec![];
             let a = |i: u8| accts[i as usize].clone();
-            let expect: Expect;
+            let mut expect: Expect;
             let ok: bool;
+            let mut admin_extension = false;
             match op {
                 Op::UpgradeAndMigrate => {
                     upgrade_and_migrate(&env, &token.address).map_err(|e| format!("step {}: {}", step, e))?;
@@ -439,6 +449,27 @@ impl Property for C12 {
                         m.minters[*who as usize] = false;
                     }
                 }
+                Op::SetAuthorized { id, authorize } => {
+                    admin_extension = true;
+                    expect = Expect::Either;
+                    ok = token.try_set_authorized(&a(*id), authorize).map(|r| r.is_ok()).unwrap_or(false);
+                    if ok {
+                        deauthorised[*id as usize] = !*authorize;
+                        cx.label("set_authorized_accepted");
+                    }
+                }
+                Op::Clawback { from, amt } => {
+                    admin_extension = true;
+                    let v = m.resolve(*amt, *from, *from);
+                    // negative amounts are rejected; no balance ever becomes negative
+                    expect = if v < 0 || v > m.bal[*from as usize] { Expect::Fail } else { Expect::Either };
+                    ok = token.try_clawback(&a(*from), &v).map(|r| r.is_ok()).unwrap_or(false);
+                    if ok {
+                        m.bal[*from as usize] = m.bal[*from as usize].wrapping_sub(v);
+                        m.supply = m.supply.wrapping_sub(v as u128);
+                        cx.label("clawback_accepted");
+                    }
+                }
                 Op::TransferOwnership { to, via_set_admin } => {
                     expect = Expect::Ok;
                     let prev = m.owner;
@@ -455,6 +486,20 @@ impl Property for C12 {
                 }
             }
 
+            // a holder the administrator de-authorised (on a tree that implements it) may be refused debits and credits
+            let parties: Vec<u8> = match op {
+                Op::Mint { to, .. } => vec![*to],
+                Op::MintFrom { minter, to, .. } => vec![*minter, *to],
+                Op::Transfer { from, to, .. } => vec![*from, *to],
+                Op::Approve { from, spender, .. } => vec![*from, *spender],
+                Op::TransferFrom { spender, from, to, .. } => vec![*spender, *from, *to],
+                Op::Burn { from, .. } => vec![*from],
+                Op::BurnFrom { spender, from, .. } => vec![*spender, *from],
+                _ => vec![],
+            };
+            if expect == Expect::Ok && parties.iter().any(|p| deauthorised[*p as usize]) {
+                expect = Expect::Either;
+            }
             match expect {
                 Expect::Ok => {
                     cx.count("must_succeed");
@@ -469,7 +514,7 @@ impl Property for C12 {
             if !ok {
                 ensure_p!(snapshot(&env) == before_snap, "step {} {:?}: rejected call changed the ledger", step, op);
                 ensure_p!(events_len(&env) == ev0, "step {} {:?}: rejected call emitted events", step, op);
-            } else {
+            } else if !admin_extension {
                 // standard token events of this call
                 let std_names = ["transfer", "mint", "burn", "approve", "set_admin", "clawback", "set_authorized"];
                 let got: Vec<(Vec<ScVal>, ScVal)> = events_since(&env, ev0)
